@@ -189,7 +189,7 @@ PYTH_KINDS = ('PythPushOracle', 'StakedWithPythPush', 'KaminoPythPush', 'DriftPy
 COMPANION = {'Kamino': r'MinimalReserve[^:]*::is_stale$', 'Drift': r'MinimalSpotMarket[^:]*::is_stale$', 'Solend': r'SolendMinimalReserve[^:]*::is_stale$'}
 
 
-def t_adapter(world):
+def t_adapter(world, oid='C09.b'):
     import mirsym.engine as E
     from specs.handlers import short
     E.LIST_K = 4
@@ -199,7 +199,7 @@ def t_adapter(world):
     f = world.fn(r'price\.rs[^>]*>::try_from_bank_with_max_age$')
     args = [eng.ex.fresh(ty, n) for n, (_, ty) in zip(['bank', 'ais', 'clock', 'max_age'], f.params)]
     res = eng.run_fn(f, args)
-    ob = Ob('C09.b', 'try_from_bank_with_max_age: a feed is produced only for a supported setup, with exactly the configured number of accounts, each key equal to the configured oracle key at its index, Pyth accounts owned by the Pyth receiver '
+    ob = Ob(oid, 'try_from_bank_with_max_age: a feed is produced only for a supported setup, with exactly the configured number of accounts, each key equal to the configured oracle key at its index, Pyth accounts owned by the Pyth receiver '
             '(or the mock id outside mainnet builds), exactly one load_checked on account 0 with the caller\'s clock and max age, its error propagated; companion reserve/spot-market staleness checked; fixed price >= 0 returned as is',
             [f.name], 'feed loaders, companion-account decoding and exchange-rate adjusters opaque (C09.a/c, C20.d); oracle account list of any length (indices < 4 materialised; every setup needs <= 3)'); ob.paths = len(res)
     setup = fsym('bank*', 'Bank', 'config.oracle_setup'); n = z3.Int('ais*.len')
